@@ -22,15 +22,21 @@ the journal without directives.  Here, for `cur = fun _ => false` (no commodity 
 * **`C20Go3_hyps_nonvacuous`** packages the two for the default configuration `{}` (all filters `true`), with `exGDays ≠ []` and a
   day that has a transaction.
 
+* **`ex_pipeline`**: `C20_returns_every_period_process_go` APPLIED to that journal with every hypothesis discharged: `exDs` (the
+  directives), `exF` (`--from 1 --to 2`, no `-v`, default filters); `ex_returns : returns exF exDs = .ok [(2, some 0)]`,
+  `ex_setup` (the built days ARE `exDays`), `P := genPar exF.cfg (partitionGo exPart)` (`hpart` by `rfl`), `ds0` := the end dates as
+  a Go set (`has_map_unit`: `hds`), `hdays := exDays_rel`, `hdef` by `decide +kernel` on the two valued days, any `j`.  Conclusion:
+  the sequential run of the six translated stages on `exGDays` succeeds and `Perf` has printed exactly `[lineGo (2, some 0)]`.
+
 WHAT IS NOT SHOWN / RESTRICTED.  `cur` is the constant `false` (with a commodity tagged as a currency the `targets` clause of
 `OrdersOK` restricts the journals; not needed for the command line).  Only `valuation = none` (`-v` absent: the case of
-`C20_returns_every_period_process_go`); with `-v`, `FuelOK` and a `val` are needed: not constructed.  The inner hypotheses of
-`C20_returns_every_period_process_go` (`returns f ds = .ok lines` for a `ds` that builds `exDays`, `hds`, `hdef`,
-`P.part = partitionGo part`) are NOT instantiated on this journal; `genPar` takes the partition as a parameter so that
-`P.part = partitionGo part` holds by `rfl` for `pg := partitionGo part`.
+`C20_returns_every_period_process_go`); with `-v`, `FuelOK` and a `val` are needed: not constructed.  Without `-v` every posting has
+value 0, so the printed return of the example is 0 (the map of values holds zero sums only: entries are deleted as they arise).  `ds0`
+in `ex_pipeline` is chosen to satisfy `hds`; that the code's `set.FromSlice(j.Days(part.EndDates()))` is this set stays hypothesis
+`hds` of the theorem (`j.Days` is not translated).
 -/
 namespace Knut.C20Go3Ex
-open Knut Knut.GoSem Knut.Performance Knut.MapSum
+open Knut Knut.GoSem Knut.Performance Knut.MapSum Knut.PortfolioSpec
 open Knut.Generated.Go
 open Knut.FactsAgree.TransProcess (AllRel TRel PRel TRel_txGo)
 open Knut.FactsAgree.TransProcessAll (DayRel OrdOK OpenRel)
@@ -39,7 +45,8 @@ open Knut.FactsAgree.TransAccount (accountGo)
 open Knut.FactsAgree.TransPosting (postingGo commodityGo)
 open Knut.FactsAgree.TransTransaction (txGo)
 open Knut.FactsAgree.TransCheck (openGo)
-open Knut.FactsAgree.TransPerformance (calcGo CVRel OrdersOK ckeyGo SplitOrders ComputeValues_Posting_agrees)
+open Knut.FactsAgree.TransPerformance (calcGo CVRel OrdersOK ckeyGo SplitOrders ComputeValues_Posting_agrees perfDaysV valuedDays lineGo)
+open Knut.C20Go (dateOf)
 
 /-- no commodity is tagged as a currency (`TagCurrency` has no caller) -/
 def cur : String → Bool := fun _ => false
@@ -253,5 +260,61 @@ theorem C20Go3_hyps_nonvacuous : ∃ (cfg : Performance.Cfg) (P : RetPar) (gdays
     (∃ d ∈ days, d.transactions ≠ []) :=
   ⟨{}, genPar {} GoZero.zero, exGDays, exDays, rfl, rfl, genPar_ok {} rfl _, exDays_rel, exGDays_ne,
     ⟨_, List.mem_cons_self, by simp⟩⟩
+
+/-! ### the theorem itself on the journal: every inner hypothesis instantiated -/
+
+/-- the directives that build `exDays` -/
+def exDs : List Directive :=
+  [ .opening ⟨1, bank⟩, .opening ⟨1, portfolio⟩, .opening ⟨1, equityAccount⟩,
+    .tx { date := 1, description := "deposit", postings := postingBuild equityAccount bank "CHF" 100 },
+    .tx { date := 2, description := "buy", postings := postingBuild bank portfolio "AAPL" 2 } ]
+
+/-- `knut portfolio returns --from 1 --to 2` (no `-v`, one period, all filters `true`) -/
+def exF : Flags := { to := 2, from? := some 1 }
+
+def exPart : Knut.Partition := { span := ⟨1, 2⟩, interval := .once, periods := [⟨1, 2⟩] }
+
+theorem ex_setup : setup exF exDs = .ok (exPart, exDays) := by rfl
+theorem ex_valued : valuedDays exF.cfg ({} : PState).bal exDays = some (exDays.map (fun d => (d.date, d.transactions))) := by rfl
+theorem ex_returns : returns exF exDs = .ok [(2, some 0)] := by
+  have hpf := Knut.FactsAgree.TransPerformance.perfFrom_perfDaysV exF.cfg exDays ({} : PState) _ ex_valued
+  unfold returns
+  rw [ex_setup]
+  simp only
+  rw [hpf]
+  simp only
+  congr 1
+  decide +kernel
+
+theorem has_map_unit (l : List Int) (x : Int) : set.Set.Has (l.map (fun e => (e, ()))) x = l.contains x := by
+  induction l with
+  | nil => rfl
+  | cons e l ih =>
+    simp only [set.Set.Has, List.map_cons, AMap.find?, List.contains_cons] at ih ⊢
+    by_cases h : e = x
+    · subst h; simp
+    · have h' : ¬ x = e := fun e' => h e'.symm
+      simp [h, h', ih]
+
+/-- **`C20_returns_every_period_process_go` applies on the journal of two days with ALL its hypotheses discharged**: the sequential run
+of the six translated stages on `exGDays` succeeds and `Perf` has printed the one line of the model, for the period end 2 -/
+theorem ex_pipeline (j : journal.Builder) :
+    ∃ out r' printed, processAllReturns (genPar exF.cfg (Knut.FactsAgree.TransDate.partitionGo exPart))
+        (returnsInit cur exF.cfg j exPart (exPart.endDates.map (fun e => (e, ())))) exGDays = some out ∧
+      perfFinal (genPar exF.cfg (Knut.FactsAgree.TransDate.partitionGo exPart))
+        (returnsInit cur exF.cfg j exPart (exPart.endDates.map (fun e => (e, ())))) exGDays =
+          some ⟨exPart.endDates.map (fun e => (e, ())), exPart.startDates, r', printed⟩ ∧
+      printed = [lineGo (2, some 0)] ∧ printed.map dateOf = [2] := by
+  obtain ⟨part, days, ms, hs, hms, H⟩ := C20Go3.C20_returns_every_period_process_go cur exF rfl exDs _ ex_returns
+  rw [ex_setup] at hs
+  injection hs with hs
+  injection hs with hp hd
+  subst hp hd
+  rw [ex_valued] at hms
+  injection hms with hms
+  subst hms
+  obtain ⟨out, r', printed, h1, h2, h3, _, h5⟩ := H (genPar exF.cfg (Knut.FactsAgree.TransDate.partitionGo exPart))
+    (genPar_ok _ rfl _) rfl (exPart.endDates.map (fun e => (e, ()))) (has_map_unit _) j exGDays exDays_rel (by decide +kernel)
+  exact ⟨out, r', printed, h1, h2, h3, h5 (by decide)⟩
 
 end Knut.C20Go3Ex
